@@ -138,6 +138,21 @@ Example C17_unwrap_qualifier_behind_wrapper :
   /\ unwrap tbl (IAlias "A" (INewType "N" (IFinal (IClassVar (ILiteral [LBool true]))))) = Ok (ILiteral [LBool true]).
 Proof. vm_compute. repeat split. Qed.
 
+(* (mirrors refs.forwardref since /repo 31a6d65: unwrap() of an alias of a string drops "<module>." where it leads a
+   dotted name, and only there) *)
+Example C17_unwrap_strips_module :
+  unwrap tbl (IAliasStr "A" "verif_c17_mod.UData") = Ok (IForwardRef "UData" (Some user_module))
+  /\ unwrap tbl (IAliasStr "B" "dict[verif_c17_mod.UData, verif_c17_mod.UNamed]")
+      = Ok (IForwardRef "dict[UData, UNamed]" (Some user_module))
+  /\ unwrap tbl (IAliasStr "C" "list[UData]") = Ok (IForwardRef "list[UData]" (Some user_module))
+  /\ unwrap tbl (IAliasStr "D" "xverif_c17_mod.UData | pkg.verif_c17_mod.UData")
+      = Ok (IForwardRef "xverif_c17_mod.UData | pkg.verif_c17_mod.UData" (Some user_module)).
+Proof. vm_compute. repeat split. Qed.
+(* the text function forwardref had before (str.replace: every occurrence) differs *)
+Theorem C17_refuted_pinned_forwardref :
+  remove_all_pinned "app." "app.webapp.Model" = "webModel" /\ fref_name "app" "app.webapp.Model" = "webapp.Model".
+Proof. vm_compute. split; reflexivity. Qed.
+
 Print Assumptions C17_tables_ok.
 Print Assumptions C17_agrees.
 Print Assumptions C17_total.
@@ -149,3 +164,4 @@ Print Assumptions C17_origin_concrete.
 Print Assumptions C17_stable.
 Print Assumptions C17_refuted_spelling_subscripted.
 Print Assumptions C17_refuted_cache_spelling.
+Print Assumptions C17_refuted_pinned_forwardref.
